@@ -10,8 +10,10 @@ import (
 	"os"
 	"path/filepath"
 	"sort"
-	"time"
+	"strings"
+	"sync/atomic"
 	"testing"
+	"time"
 
 	"github.com/NethermindEth/juno/db"
 	"github.com/NethermindEth/juno/db/memory"
@@ -46,12 +48,21 @@ type action struct {
 	Src     string `json:"src"`
 	P       []int  `json:"p"`
 	Ub      bool   `json:"ub"`
+	Cbf     bool   `json:"cbf"`    // Get family: the callback fails
+	Sized   bool   `json:"sized"`  // NewBatch: the ...WithSize constructor
+	Rk      int    `json:"rk"`     // Update: key read through the indexed batch inside the callback (0: none)
+	Helper  string `json:"helper"` // Update: "update" (indexed batch) | "write" (plain batch)
 }
 
 type result struct {
-	Kind string `json:"kind"`
-	V    string `json:"v,omitempty"`
-	K    int    `json:"k,omitempty"`
+	Kind  string `json:"kind"`
+	V     string `json:"v,omitempty"`
+	K     int    `json:"k,omitempty"`
+	B     bool   `json:"b,omitempty"`     // Has
+	N     int    `json:"n,omitempty"`     // Batch.Size
+	Exact bool   `json:"exact,omitempty"` // Batch.Size: n is exact (no range delete in the log), else a lower bound
+	Rd    string `json:"rd,omitempty"`    // Update: what the callback read through the indexed batch
+	Items string `json:"items,omitempty"` // NewIter: the content the iterator ranges over, "k=v;k=v;"
 }
 
 type step struct {
@@ -64,7 +75,18 @@ type input struct {
 	Keys       [][]int  `json:"keys"`
 	Behaviours [][]step `json:"behaviours"`
 	Backends   []string `json:"backends"`
+	DiskEvery  int      `json:"disk_every"` // the on-disk variant replays every n-th behaviour (default 10)
+	Listener   string   `json:"listener"`   // "" / "alt": every second behaviour runs on store.WithListener(l); "all"; "none"
+	Tag        string   `json:"tag"`        // "cover": behaviours are the edge cover (statistics only)
 }
+
+// countingListener: db.EventListener handed to WithListener; the store returned by WithListener
+// must obey the same contract.
+type countingListener struct{ io, commit atomic.Int64 }
+
+func (l *countingListener) OnIO(bool, time.Time)             { l.io.Add(1) }
+func (l *countingListener) OnCommit(time.Time)               { l.commit.Add(1) }
+func (l *countingListener) OnWriteStall(bool, time.Duration) {}
 
 const absent = "-"
 
@@ -132,6 +154,15 @@ type replayer struct {
 	// slices handed out by Key()/Value() are retained and must keep their content when the
 	// iterator is repositioned or closed (both are documented / implemented as copies)
 	held [][2][]byte
+
+	listener *countingListener // non-nil: the store is the one WithListener(listener) returned
+}
+
+func (r *replayer) withListener(st db.KeyValueStore) db.KeyValueStore {
+	if r.listener == nil {
+		return st
+	}
+	return st.WithListener(r.listener)
 }
 
 func (r *replayer) key(i int) []byte { return r.keys[i-1] }
@@ -145,13 +176,36 @@ func (r *replayer) keyIndex(k []byte) int {
 	return -1
 }
 
-func readRes(rd interface {
+type getter interface {
 	Get([]byte, func([]byte) error) error
-}, k []byte) (result, error) {
+}
+
+func readRes(rd getter, k []byte) (result, error) { return readResCb(rd, k, false) }
+
+// readResCb: Get in its callback form; with cbf the callback fails and Get must hand its error back
+// (the callback must not run at all for a missing key).
+func readResCb(rd getter, k []byte, cbf bool) (result, error) {
 	var val []byte
-	err := rd.Get(k, func(v []byte) error { val = bytes.Clone(v); return nil })
+	calls := 0
+	err := rd.Get(k, func(v []byte) error {
+		calls++
+		val = bytes.Clone(v)
+		if cbf {
+			return errCallback
+		}
+		return nil
+	})
 	if errors.Is(err, db.ErrKeyNotFound) {
+		if calls != 0 {
+			return result{Kind: "callback ran for a missing key"}, nil
+		}
 		return result{Kind: "notfound"}, nil
+	}
+	if cbf && errors.Is(err, errCallback) && calls == 1 {
+		return result{Kind: "cberr"}, nil
+	}
+	if cbf || calls != 1 {
+		return result{Kind: fmt.Sprintf("Get: callback ran %d times, returned %v", calls, err)}, nil
 	}
 	if err != nil {
 		return result{Kind: "error"}, err
@@ -182,6 +236,18 @@ func okOrErr(err error) result {
 		return result{Kind: "error:" + err.Error()}
 	}
 	return result{Kind: "ok"}
+}
+
+type haser interface {
+	Has([]byte) (bool, error)
+}
+
+func hasRes(rd haser, k []byte) result {
+	has, err := rd.Has(k)
+	if err != nil {
+		return result{Kind: "error:" + err.Error()}
+	}
+	return result{Kind: "has", B: has}
 }
 
 func (r *replayer) checkHeld() string {
@@ -215,6 +281,9 @@ func (r *replayer) itRes(valid bool) result {
 	if err != nil {
 		return result{Kind: "error:" + err.Error()}
 	}
+	if uv, uerr := r.it.UncopiedValue(); uerr != nil || !bytes.Equal(uv, v) {
+		return result{Kind: fmt.Sprintf("inconsistent: UncopiedValue()=%x/%v, Value()=%x", uv, uerr, v)}
+	}
 	return result{Kind: "at", K: r.keyIndex(r.it.Key()), V: string(v)}
 }
 
@@ -240,8 +309,15 @@ func shapeOf(p []int, ub bool) string {
 	return "prefix-ub"
 }
 
-// apply executes one model action on the real store and returns the observed result.
-func (r *replayer) apply(a action) (res result, skip bool) {
+const (
+	noSkip   = 0
+	skipRest = 1 // the variant cannot perform the call and its state would differ from now on
+	skipStep = 2 // the variant cannot perform this (read-only) call; go on with the next one
+)
+
+// apply executes one model action on the real store and returns the observed result; exp is the
+// specification's result (needed only where the contract leaves a number open: Batch.Size).
+func (r *replayer) apply(a action, exp result) (res result, skip int) {
 	defer func() {
 		if p := recover(); p != nil {
 			res = result{Kind: fmt.Sprintf("panic: %v", p)}
@@ -249,26 +325,43 @@ func (r *replayer) apply(a action) (res result, skip bool) {
 	}()
 	switch a.Name {
 	case "Put":
-		return okOrErr(r.store.Put(r.key(a.K), []byte(a.V))), false
+		return okOrErr(r.store.Put(r.key(a.K), []byte(a.V))), noSkip
 	case "Delete":
-		return okOrErr(r.store.Delete(r.key(a.K))), false
+		return okOrErr(r.store.Delete(r.key(a.K))), noSkip
 	case "DeleteRange":
-		return okOrErr(r.store.DeleteRange(r.key(a.S), r.key(a.E))), false
+		return okOrErr(r.store.DeleteRange(r.key(a.S), r.key(a.E))), noSkip
 	case "Get":
-		res, _ := readRes(r.store, r.key(a.K))
-		// Has must agree with Get
-		has, err := r.store.Has(r.key(a.K))
-		if err != nil || has != (res.Kind == "value") {
-			return result{Kind: fmt.Sprintf("Has=%v/%v disagrees with Get=%s", has, err, res.Kind)}, false
-		}
-		return res, false
+		res, _ := readResCb(r.store, r.key(a.K), a.Cbf)
+		return res, noSkip
+	case "Has":
+		return hasRes(r.store, r.key(a.K)), noSkip
 	case "Update":
-		useWrite := len(a.Ops)%2 == 0 // alternate the two helpers; Write's callback gets a plain batch
+		useWrite := len(a.Ops)%2 == 0 // (recorded behaviours without `helper`) alternate the two helpers
+		if a.Helper != "" {
+			useWrite = a.Helper == "write"
+		}
 		var err error
+		rd := ""
 		fn := func(w db.KeyValueWriter, full any) error {
 			for _, o := range a.Ops {
 				if e := applyOp(w, full, r, o); e != nil {
 					return e
+				}
+			}
+			if a.Rk > 0 { // read through the indexed batch the helper handed to the callback
+				ib, ok := full.(db.IndexedBatch)
+				if !ok {
+					return fmt.Errorf("callback of Update did not get an indexed batch")
+				}
+				g, _ := readRes(ib, r.key(a.Rk))
+				h := hasRes(ib, r.key(a.Rk))
+				switch {
+				case h.Kind != "has" || h.B != (g.Kind == "value"):
+					rd = fmt.Sprintf("Has=%v(%s) disagrees with Get=%s", h.B, h.Kind, g.Kind)
+				case g.Kind == "value":
+					rd = "value:" + g.V
+				default:
+					rd = g.Kind
 				}
 			}
 			if a.Fail {
@@ -283,14 +376,21 @@ func (r *replayer) apply(a action) (res result, skip bool) {
 		}
 		if a.Fail {
 			if errors.Is(err, errCallback) {
-				return result{Kind: "cberr"}, false
+				return result{Kind: "cberr", Rd: rd}, noSkip
 			}
-			return result{Kind: fmt.Sprintf("expected callback error, got %v", err)}, false
+			return result{Kind: fmt.Sprintf("expected callback error, got %v", err)}, noSkip
 		}
-		return okOrErr(err), false
+		res := okOrErr(err)
+		res.Rd = rd
+		return res, noSkip
 	case "NewBatch":
 		if a.Indexed {
-			ib := r.store.NewIndexedBatch()
+			var ib db.IndexedBatch
+			if a.Sized {
+				ib = r.store.NewIndexedBatchWithSize(64)
+			} else {
+				ib = r.store.NewIndexedBatch()
+			}
 			switch r.be.wrap {
 			case "sync":
 				r.batch = db.NewSyncBatch(ib)
@@ -300,32 +400,50 @@ func (r *replayer) apply(a action) (res result, skip bool) {
 			default:
 				r.batch = ib
 			}
+		} else if a.Sized {
+			r.plain = r.store.NewBatchWithSize(64)
 		} else {
 			r.plain = r.store.NewBatch()
 		}
-		return result{Kind: "ok"}, false
+		return result{Kind: "ok"}, noSkip
 	case "BatchOp":
 		if r.bufBatch != nil {
 			if a.O.Op == "delrange" {
-				return result{}, true // BufferBatch does not support range deletes
+				return result{}, skipRest // BufferBatch does not support range deletes
 			}
-			return okOrErr(applyOp(r.bufBatch, nil, r, *a.O)), false
+			return okOrErr(applyOp(r.bufBatch, nil, r, *a.O)), noSkip
 		}
 		if r.batch != nil {
-			return okOrErr(applyOp(r.batch, r.batch, r, *a.O)), false
+			return okOrErr(applyOp(r.batch, r.batch, r, *a.O)), noSkip
 		}
-		return okOrErr(applyOp(r.plain, r.plain, r, *a.O)), false
+		return okOrErr(applyOp(r.plain, r.plain, r, *a.O)), noSkip
 	case "BatchGet":
 		if r.bufBatch != nil {
-			res, _ := readRes(r.bufBatch, r.key(a.K))
-			return res, false
+			res, _ := readResCb(r.bufBatch, r.key(a.K), a.Cbf)
+			return res, noSkip
 		}
-		res, _ := readRes(r.batch, r.key(a.K))
-		has, err := r.batch.Has(r.key(a.K))
-		if err != nil || has != (res.Kind == "value") {
-			return result{Kind: fmt.Sprintf("Has=%v/%v disagrees with Get=%s", has, err, res.Kind)}, false
+		res, _ := readResCb(r.batch, r.key(a.K), a.Cbf)
+		return res, noSkip
+	case "BatchHas":
+		if r.bufBatch != nil {
+			return result{}, skipStep // BufferBatch.Has: "should not be called"
 		}
-		return res, false
+		return hasRes(r.batch, r.key(a.K)), noSkip
+	case "BatchSize":
+		var n int
+		switch {
+		case r.bufBatch != nil:
+			return result{}, skipStep // BufferBatch.Size: "should not be called"
+		case r.batch != nil:
+			n = r.batch.Size()
+		default:
+			n = r.plain.Size()
+		}
+		// with a range delete in the log the contract only gives a lower bound
+		if !exp.Exact && n >= exp.N {
+			n = exp.N
+		}
+		return result{Kind: "size", N: n, Exact: exp.Exact}, noSkip
 	case "BatchWrite":
 		var err error
 		switch {
@@ -337,7 +455,7 @@ func (r *replayer) apply(a action) (res result, skip bool) {
 			err = r.plain.Write()
 		}
 		r.batch, r.plain, r.bufBatch = nil, nil, nil
-		return okOrErr(err), false
+		return okOrErr(err), noSkip
 	case "BatchDiscard":
 		var err error
 		switch {
@@ -349,17 +467,19 @@ func (r *replayer) apply(a action) (res result, skip bool) {
 			err = r.plain.Close()
 		}
 		r.batch, r.plain, r.bufBatch = nil, nil, nil
-		return okOrErr(err), false
+		return okOrErr(err), noSkip
 	case "NewSnapshot":
 		r.snap = r.store.NewSnapshot()
-		return result{Kind: "ok"}, false
+		return result{Kind: "ok"}, noSkip
 	case "SnapGet":
-		res, _ := readRes(r.snap, r.key(a.K))
-		return res, false
+		res, _ := readResCb(r.snap, r.key(a.K), a.Cbf)
+		return res, noSkip
+	case "SnapHas":
+		return hasRes(r.snap, r.key(a.K)), noSkip
 	case "SnapClose":
 		err := r.snap.Close()
 		r.snap = nil
-		return okOrErr(err), false
+		return okOrErr(err), noSkip
 	case "NewIter":
 		var src db.KeyValueReader
 		switch a.Src {
@@ -367,7 +487,7 @@ func (r *replayer) apply(a action) (res result, skip bool) {
 			src = r.store
 		case "batch":
 			if r.bufBatch != nil {
-				return result{}, true
+				return result{}, skipRest // BufferBatch.NewIterator: "should not be called"
 			}
 			src = r.batch
 		case "snap":
@@ -382,49 +502,67 @@ func (r *replayer) apply(a action) (res result, skip bool) {
 		}
 		it, err := src.NewIterator(p, a.Ub)
 		if err != nil {
-			return okOrErr(err), false
+			return okOrErr(err), noSkip
 		}
 		r.it = it
 		r.itShape = shapeOf(a.P, a.Ub)
-		return result{Kind: "ok"}, false
+		// what the iterator ranges over is part of the call's result: a SECOND iterator with the same
+		// arguments is walked to the end (the one under test stays unpositioned)
+		probe, err := src.NewIterator(p, a.Ub)
+		if err != nil {
+			return okOrErr(err), noSkip
+		}
+		items := ""
+		for ok := probe.First(); ok; ok = probe.Next() {
+			v, verr := probe.Value()
+			if verr != nil {
+				items += "error:" + verr.Error()
+				break
+			}
+			items += fmt.Sprintf("%d=%s;", r.keyIndex(probe.Key()), v)
+		}
+		if err := probe.Close(); err != nil {
+			return okOrErr(err), noSkip
+		}
+		return result{Kind: "ok", Items: items}, noSkip
 	case "IterFirst":
-		return r.itRes(r.it.First()), false
+		return r.itRes(r.it.First()), noSkip
 	case "IterNext":
-		return r.itRes(r.it.Next()), false
+		return r.itRes(r.it.Next()), noSkip
 	case "IterPrev":
-		return r.itRes(r.it.Prev()), false
+		return r.itRes(r.it.Prev()), noSkip
 	case "IterSeek":
-		return r.itRes(r.it.Seek(r.key(a.K))), false
+		return r.itRes(r.it.Seek(r.key(a.K))), noSkip
 	case "IterClose":
 		err := r.it.Close()
 		r.it = nil
 		if msg := r.checkHeld(); msg != "" {
-			return result{Kind: "retained:" + msg}, false
+			return result{Kind: "retained:" + msg}, noSkip
 		}
-		return okOrErr(err), false
+		return okOrErr(err), noSkip
 	case "Flush":
 		switch impl := r.store.Impl().(type) {
 		case *pebv2.DB:
-			return okOrErr(impl.Flush()), false
+			return okOrErr(impl.Flush()), noSkip
 		case *pebv1.DB:
-			return okOrErr(impl.Flush()), false
+			return okOrErr(impl.Flush()), noSkip
 		}
-		return result{Kind: "ok"}, false // db/memory has no write buffer
+		return result{Kind: "ok"}, noSkip // db/memory has no write buffer
 	case "Reopen":
 		if r.be.isMem {
-			return result{Kind: "ok"}, false // db/memory is not persistent; a restart is not defined
+			return result{Kind: "ok"}, noSkip // db/memory is not persistent; a restart is not defined
 		}
 		if err := r.store.Close(); err != nil {
-			return okOrErr(err), false
+			return okOrErr(err), noSkip
 		}
 		st, err := r.opener(r.dir)
 		if err != nil {
-			return okOrErr(err), false
+			return okOrErr(err), noSkip
 		}
-		r.store = st
-		return result{Kind: "ok"}, false
+		r.store = r.withListener(st)
+		return result{Kind: "ok"}, noSkip
 	}
-	return result{Kind: "unknown action " + a.Name}, false
+	return result{Kind: "unknown action " + a.Name}, noSkip
 }
 
 func (r *replayer) dump() []string {
@@ -449,21 +587,33 @@ func (r *replayer) dump() []string {
 	return out
 }
 
-func (r *replayer) closeAll() {
-	defer func() { _ = recover() }()
-	if r.it != nil {
-		r.it.Close()
+// closeAll closes what the behaviour left open and then the store; a store that cannot be closed
+// any more (error or panic: e.g. a value handle that was never released) is reported.
+func (r *replayer) closeAll() (problem string) {
+	func() {
+		defer func() { _ = recover() }()
+		if r.it != nil {
+			r.it.Close()
+		}
+		if r.snap != nil {
+			r.snap.Close()
+		}
+		if r.batch != nil {
+			r.batch.Close()
+		}
+		if r.plain != nil {
+			r.plain.Close()
+		}
+	}()
+	defer func() {
+		if p := recover(); p != nil {
+			problem = fmt.Sprintf("panic: %v", p)
+		}
+	}()
+	if err := r.store.Close(); err != nil {
+		return "error: " + err.Error()
 	}
-	if r.snap != nil {
-		r.snap.Close()
-	}
-	if r.batch != nil {
-		r.batch.Close()
-	}
-	if r.plain != nil {
-		r.plain.Close()
-	}
-	r.store.Close()
+	return ""
 }
 
 func eqStore(a, b []string) bool {
@@ -500,14 +650,18 @@ func TestKVReplay(t *testing.T) {
 		want[b] = true
 	}
 	actionsSeen := map[string]int{}
+	diskEvery := in.DiskEvery
+	if diskEvery <= 0 {
+		diskEvery = 10
+	}
 	for _, be := range backends() {
 		if len(want) > 0 && !want[be.name] {
 			continue
 		}
 		nb := 0
 		for bi, beh := range in.Behaviours {
-			if be.scratch && bi%10 != 0 {
-				continue // the on-disk variant (fsync per write) replays every 10th behaviour
+			if be.scratch && bi%diskEvery != 0 {
+				continue // the on-disk variant (fsync per write) replays every n-th behaviour
 			}
 			dir := ""
 			if be.scratch {
@@ -523,30 +677,73 @@ func TestKVReplay(t *testing.T) {
 			if err != nil {
 				t.Fatalf("open %s: %v", be.name, err)
 			}
-			r := &replayer{keys: keys, store: st, be: be, opener: opener, dir: dir}
+			r := &replayer{keys: keys, be: be, opener: opener, dir: dir}
+			useListener := in.Listener == "all" || (in.Listener != "none" && bi%2 == 1)
+			if useListener {
+				r.listener = &countingListener{}
+			}
+			r.store = r.withListener(st)
+			if bi == 0 {
+				// Helper.Path / Helper.Impl: stable answers, no effect on the content
+				if p1, p2 := r.store.Path(), r.store.Path(); p1 != p2 || (be.scratch && p1 != dir) {
+					out.Diverge(vh.Divergence{Key: "kv:" + be.name + ":Path", What: fmt.Sprintf("backend %s: Path() gave %q then %q (opened at %q)", be.name, p1, p2, dir),
+						Input: vh.J{"keys": in.Keys, "behaviours": [][]step{beh[:1]}, "backends": []string{be.name}}})
+				}
+				if r.store.Impl() == nil {
+					out.Diverge(vh.Divergence{Key: "kv:" + be.name + ":Impl", What: "backend " + be.name + ": Impl() is nil",
+						Input: vh.J{"keys": in.Keys, "behaviours": [][]step{beh[:1]}, "backends": []string{be.name}}})
+				}
+			}
+			diverged := false
 			for si, s := range beh {
-				obs, skip := r.apply(s.A)
-				if skip {
+				obs, skip := r.apply(s.A, s.Res)
+				if skip == skipRest {
 					break
+				}
+				if skip == skipStep {
+					continue
 				}
 				out.Done(0, 1)
 				actionsSeen[s.A.Name]++
 				obsStore := r.dump()
 				if obs != s.Res || !eqStore(obsStore, s.Store) {
 					key := fmt.Sprintf("kv:%s:%s", be.name, s.A.Name)
-					if r.it != nil && (r.itShape == "prefix-nobound" || r.itShape == "allff-ub") && obs != s.Res {
+					isIterCall := len(s.A.Name) > 4 && s.A.Name[:4] == "Iter" || s.A.Name == "NewIter"
+					if r.it != nil && isIterCall && (r.itShape == "prefix-nobound" || r.itShape == "allff-ub") && obs != s.Res {
 						key = fmt.Sprintf("kv-iter-shape:%s:%s", r.itShape, be.name)
+					}
+					if s.A.Name == "Reopen" && strings.Contains(obs.Kind, "outstanding references") {
+						// the database cannot be closed: a value handle obtained earlier was never released
+						key = "kv-close-outstanding-references:" + be.name
+					}
+					if s.A.Name == "SnapHas" && !s.Res.B && len(obs.Kind) > 6 && obs.Kind[:6] == "error:" {
+						// Snapshot.Has of a key that is not in the snapshot returns an error instead of (false, nil)
+						key = "kv-snapshot-has-missing-key:error:" + be.name
 					}
 					out.Diverge(vh.Divergence{
 						Key:  key,
 						What: fmt.Sprintf("backend %s, call %s: result/store differs from the contract", be.name, s.A.Name),
-						Input: vh.J{"keys": in.Keys, "behaviours": [][]step{beh[:si+1]}, "backends": []string{be.name}},
+						Input: vh.J{"keys": in.Keys, "behaviours": [][]step{beh[:si+1]}, "backends": []string{be.name},
+							"listener": map[bool]string{true: "all", false: "none"}[useListener], "disk_every": 1},
 						Step:  si, Expected: vh.J{"res": s.Res, "store": s.Store}, Observed: vh.J{"res": obs, "store": obsStore},
 					})
+					diverged = true
 					break
 				}
 			}
-			r.closeAll()
+			if problem := r.closeAll(); problem != "" && !diverged {
+				key := fmt.Sprintf("kv:%s:Close", be.name)
+				if strings.Contains(problem, "outstanding references") {
+					key = "kv-close-outstanding-references:" + be.name
+				}
+				out.Diverge(vh.Divergence{
+					Key:  key,
+					What: fmt.Sprintf("backend %s: closing the database after the behaviour: %s", be.name, problem),
+					Input: vh.J{"keys": in.Keys, "behaviours": [][]step{beh}, "backends": []string{be.name},
+						"listener": map[bool]string{true: "all", false: "none"}[useListener], "disk_every": 1},
+					Step: len(beh), Expected: "closed", Observed: problem,
+				})
+			}
 			nb++
 		}
 		out.Count("behaviours_"+be.name, nb)
@@ -602,14 +799,14 @@ func TestKVEmptyKeyProbe(t *testing.T) {
 		}
 		r := &replayer{keys: [][]byte{{}, {0}}, store: st, be: be, opener: opener}
 		// a memtable holding ONLY the empty key (one-row data block) ...
-		if res, _ := r.apply(action{Name: "Flush"}); res.Kind != "ok" {
+		if res, _ := r.apply(action{Name: "Flush"}, result{}); res.Kind != "ok" {
 			fail("flush-single:" + res.Kind)
 		}
 		time.Sleep(300 * time.Millisecond)
 		// ... and one holding it next to another key
 		_ = st.Put([]byte{}, []byte("a"))
 		_ = st.Put([]byte{0}, []byte("b"))
-		if res, _ := r.apply(action{Name: "Flush"}); res.Kind != "ok" {
+		if res, _ := r.apply(action{Name: "Flush"}, result{}); res.Kind != "ok" {
 			fail("flush:" + res.Kind)
 		}
 		time.Sleep(300 * time.Millisecond) // background flush/compaction goroutines
@@ -619,7 +816,7 @@ func TestKVEmptyKeyProbe(t *testing.T) {
 		if got := r.dump(); len(got) != 2 || got[0] != "a" || got[1] != "b" {
 			fail(fmt.Sprintf("iteration:%v", got))
 		}
-		if res, _ := r.apply(action{Name: "Reopen"}); res.Kind != "ok" {
+		if res, _ := r.apply(action{Name: "Reopen"}, result{}); res.Kind != "ok" {
 			fail("reopen:" + res.Kind)
 		}
 		if res, _ := readRes(r.store, []byte{}); res != (result{Kind: "value", V: "a"}) {
